@@ -148,6 +148,7 @@ def parse_pattern(pattern):
         raise Unmodelled("empty pattern")
     out = []
     notes = set()
+    has_star = "*" in pattern   # with any `*` in the rule its raw ( ) groups bind nothing; without, nothing is asserted about them
     for n, t in enumerate(toks):
         last = n == len(toks) - 1
         if "{" in t or "}" in t:
@@ -176,7 +177,7 @@ def parse_pattern(pattern):
                 re.compile(rx)
             except re.error:
                 raise Unmodelled("~/re/ is not a regex")
-            if _has_capturing_group(rx):
+            if _has_capturing_group(rx) and not has_star:
                 notes.add("rawgroups")
             out.append(("TILDERE", rx))
         elif last and t.endswith("...") and _plain(t[:-3]) and t != "...":
@@ -191,7 +192,7 @@ def parse_pattern(pattern):
             raise Unmodelled("'...' after a non-literal")
         else:
             _check_word_regex(t)
-            if _has_capturing_group(t):
+            if _has_capturing_group(t) and not has_star:
                 notes.add("rawgroups")
             out.append(("RAW", t))
     return icase, out, notes
@@ -568,6 +569,22 @@ def grammar_patterns(max_tokens):
                 yield "(?i)" + p
 
 
+RAWGROUP = "(a|ab)"
+
+
+def rawgroup_patterns(max_tokens):
+    """rules with a raw parenthesised alternation word next to plain `*` and/or a trailing `~` (no */re/)"""
+    inner = LITS + ["*", RAWGROUP]
+    for n in range(1, max_tokens + 1):
+        for head in itertools.product(inner, repeat=n - 1):
+            for last in inner + ["~"]:
+                if RAWGROUP not in head and last != RAWGROUP:
+                    continue
+                p = " ".join(head + (last,))
+                yield p
+                yield "(?i)" + p
+
+
 def grammar_rows(max_words, alphabet=None):
     for n in range(1, max_words + 1):
         for ws in itertools.product(alphabet or ROW_WORDS, repeat=n):
@@ -581,6 +598,15 @@ class Ctx:
         self.failures = []
         self.fcount = {}
         self.samples = []
+
+    def call(self, where, case, fn, *args, **kw):
+        """call into annet: an exception of the code under test becomes a failure `exception:<where>`, never a crash"""
+        try:
+            return True, fn(*args, **kw)
+        except Exception as e:
+            self.fail("exception:" + where, "the code under test raises in %s" % where, case, "no exception",
+                      "%s: %s" % (type(e).__name__, str(e)[:300]))
+            return False, None
 
     def fail(self, key, text, case, expected, actual):
         n = self.fcount.get(key, 0)
@@ -691,13 +717,15 @@ def run_grammar(ctx, tier, part, nparts):
     max_tokens = 3 if tier == "quick" else 4
     alphabet = ROW_WORDS[:6] if tier == "quick" else ROW_WORDS
     rows = list(grammar_rows(5, alphabet))
-    pats = list(grammar_patterns(max_tokens))
+    pats = list(grammar_patterns(max_tokens)) + list(rawgroup_patterns(3))
     for i, p in enumerate(pats):
         if i % nparts != part:
             continue
         icase, toks, notes = parse_pattern(p)
-        rx = syntax.compile_row_regexp(p)
         case = dict(section="grammar", pattern=p)
+        ok_, rx = ctx.call("compile_row_regexp", case, syntax.compile_row_regexp, p)
+        if not ok_:
+            continue
         if bool(rx.flags & re.I) != icase:
             ctx.fail("compile_row_regexp:(?i)-flag", "(?i) in the rule must make the compiled regex case-insensitive (and only that)",
                      case, icase, bool(rx.flags & re.I))
@@ -706,14 +734,71 @@ def run_grammar(ctx, tier, part, nparts):
             ctx.nontrivial.add(_hash("g", p))
         # reverse template of the patching rulebook, on the matching rows with <= len(toks)+1 words
         few = rows[:sum(len(alphabet) ** k for k in range(1, min(len(toks) + 1, 5) + 1))]
-        tmpl = rb_patching._make_reverse(p, PREFIX)
+        ok_, tmpl = ctx.call("patching._make_reverse", dict(case, prefix=PREFIX), rb_patching._make_reverse, p, PREFIX)
+        if not ok_:
+            continue
         check_reverse_template(ctx, "patching._make_reverse", case, tmpl, toks, PREFIX, icase, few)
-        tmpl2 = rb_patching._make_reverse(p, PREFIX, flags=rx.flags)
-        if tmpl2 != tmpl:
+        ok_, tmpl2 = ctx.call("patching._make_reverse", dict(case, prefix=PREFIX, flags=int(rx.flags)), rb_patching._make_reverse, p, PREFIX, flags=rx.flags)
+        if ok_ and tmpl2 != tmpl:
             ctx.fail("patching._make_reverse:flags", "the reverse template must not depend on the regex flags", case, tmpl, tmpl2)
         if part == 0 and len(ctx.samples) < 1 and len(toks) == 3 and toks[1][0] == "STARRE":
             r = "no ab a"
             ctx.samples.append(dict(pattern=p, row=r, expected=_j(ref_match(p, r)), reverse=tmpl))
+
+
+# --------------------------------------------------------------------------------------------------------------------
+# part 1b: every vendor's negation word next to rule words that merely BEGIN with it
+NEAR_WORDS = {"no": ["notify", "nothing"], "undo": ["undoable", "undone"], "delete": ["deleted", "deletes"], "remove": ["removed", "remover"]}
+
+
+def run_negation_words(ctx, part, nparts):
+    from annet.vendors import registry_connector
+    reg = registry_connector.get()
+    by_prefix = {}
+    for name in reg:
+        by_prefix.setdefault(reg[name].reverse, name)
+    idx = 0
+    for prefix, vendor in sorted(by_prefix.items()):
+        near = NEAR_WORDS.get(prefix, [prefix + "x", prefix + prefix])
+        inner = [prefix] + near + ["a", "*"]
+        pats = []
+        for n in (1, 2, 3):
+            for head in itertools.product(inner, repeat=n - 1):
+                for last in inner + ["~", near[0] + "~"]:
+                    pats.append(" ".join(head + (last,)))
+        mine = []
+        for p in pats:
+            idx += 1
+            if (idx - 1) % nparts == part:
+                mine.append(p)
+        if not mine:
+            continue
+        text = "\n".join(mine) + "\n"
+        ok_o, ordering = ctx.call("compile_ordering_text", dict(section="negation-words", vendor=vendor), rb_ordering.compile_ordering_text, text, vendor)
+        for p in mine:
+            icase, toks, notes = parse_pattern(p)
+            neg = ref_negate_tokens(toks, prefix)
+            case = dict(section="negation-words", pattern=p, prefix=prefix, vendor=vendor)
+            rows = sorted(set(_rows_for(toks, icase, prefix)) | set(_rows_for(neg, icase, prefix)))
+            ok_, tmpl = ctx.call("patching._make_reverse", case, rb_patching._make_reverse, p, prefix)
+            if ok_:
+                check_reverse_template(ctx, "patching._make_reverse", case, tmpl, toks, prefix, icase, rows)
+            words = p.split(" ")
+            exp = " ".join(words[1:]) if (words[0] == prefix and len(words) > 1) else prefix + " " + p
+            ctx.ev += 1
+            ok_, got = ctx.call("acl._make_reverse", case, rb_acl._make_reverse, p, prefix)
+            if ok_ and got != exp:
+                ctx.fail("acl._make_reverse:negation", "the negated rule is <negation word> + rule, or the rule without its leading negation word",
+                         case, exp, got)
+            if ok_o:
+                orule = ordering.get(p)
+                if orule is None:
+                    ctx.fail("ordering:rule-missing", "rule line not found in the compiled ordering rulebook", case, p, list(ordering)[:5])
+                else:
+                    check_regex_on_rows(ctx, "ordering.direct_regexp", case, orule["attrs"]["direct_regexp"], icase, toks, notes, rows)
+                    _check_negated(ctx, "ordering.reverse_regexp", case, orule["attrs"]["reverse_regexp"], icase, neg, notes, rows, p)
+            if any(w in near for w in words):
+                ctx.nontrivial.add(_hash("n", prefix, p))
 
 
 # --------------------------------------------------------------------------------------------------------------------
@@ -745,10 +830,11 @@ def run_compilers(ctx, tier, part, nparts):
         plines.append(p + ("   %ignore_case" if ign[p] else ""))
     ptext = "\n".join(plines) + "\n"
     text = "\n".join(mine) + "\n"
-    patching = rb_patching.compile_patching_text(ptext, vendor)
-    ordering = rb_ordering.compile_ordering_text(text, vendor)
-    acl = rb_acl.compile_acl_text(text, vendor)
-    deploying = rb_deploying.compile_deploying_text(text, vendor)
+    cc = dict(section="compilers", vendor=vendor, patterns=len(mine))
+    ok1, patching = ctx.call("compile_patching_text", dict(cc, text=ptext[:300]), rb_patching.compile_patching_text, ptext, vendor)
+    ok2, ordering = ctx.call("compile_ordering_text", dict(cc, text=text[:300]), rb_ordering.compile_ordering_text, text, vendor)
+    ok3, acl = ctx.call("compile_acl_text", dict(cc, text=text[:300]), rb_acl.compile_acl_text, text, vendor)
+    ok4, deploying = ctx.call("compile_deploying_text", dict(cc, text=text[:300]), rb_deploying.compile_deploying_text, text, vendor)
     for n, p in enumerate(mine):
         icase, toks, notes = parse_pattern(p)
         neg = ref_negate_tokens(toks, PREFIX)
@@ -756,8 +842,10 @@ def run_compilers(ctx, tier, part, nparts):
         case = dict(section="compilers", pattern=p, vendor=vendor)
         tot_m = tot_n = 0
         # patching
-        prule = patching["local"].get(plines[n])
-        if prule is None:
+        prule = patching["local"].get(plines[n]) if ok1 else None
+        if not ok1:
+            pass
+        elif prule is None:
             ctx.fail("patching:rule-missing", "rule line not found in the compiled patching rulebook", case, plines[n], list(patching["local"])[:5])
         else:
             pic = icase or ign[p]
@@ -770,22 +858,28 @@ def run_compilers(ctx, tier, part, nparts):
                          dict(case, ignore_case_param=ign[p]), pic, a["ignore_case"])
             check_reverse_template(ctx, "patching.reverse", case, a["reverse"], toks, PREFIX, pic, rows)
         # ordering
-        orule = ordering.get(p)
-        if orule is None:
+        orule = ordering.get(p) if ok2 else None
+        if not ok2:
+            pass
+        elif orule is None:
             ctx.fail("ordering:rule-missing", "rule line not found in the compiled ordering rulebook", case, p, list(ordering)[:5])
         else:
             check_regex_on_rows(ctx, "ordering.direct_regexp", case, orule["attrs"]["direct_regexp"], icase, toks, notes, rows)
             _check_negated(ctx, "ordering.reverse_regexp", case, orule["attrs"]["reverse_regexp"], icase, neg, notes, rows, p)
         # acl
-        arule = acl["local"].get(p)
-        if arule is None:
+        arule = acl["local"].get(p) if ok3 else None
+        if not ok3:
+            pass
+        elif arule is None:
             ctx.fail("acl:rule-missing", "rule line not found in the compiled acl", case, p, list(acl["local"])[:5])
         else:
             check_regex_on_rows(ctx, "acl.direct_regexp", case, arule["attrs"]["direct_regexp"], icase, toks, notes, rows)
             _check_negated(ctx, "acl.reverse_regexp", case, arule["attrs"]["reverse_regexp"], icase, neg, notes, rows, p)
         # deploying
-        drule = deploying.get(p)
-        if drule is None:
+        drule = deploying.get(p) if ok4 else None
+        if not ok4:
+            pass
+        elif drule is None:
             ctx.fail("deploying:rule-missing", "rule line not found in the compiled deploy rulebook", case, p, list(deploying)[:5])
         else:
             check_regex_on_rows(ctx, "deploying.regexp", case, drule["attrs"]["regexp"], icase, toks, notes, rows)
@@ -799,19 +893,22 @@ def run_compilers(ctx, tier, part, nparts):
         ctx.ev += 1
         words = p.split(" ")
         exp = " ".join(words[1:]) if (words[0] == PREFIX and len(words) > 1) else PREFIX + " " + p
-        got = rb_acl._make_reverse(p, PREFIX)
+        ok_, got = ctx.call("acl._make_reverse", dict(pattern=p, prefix=PREFIX), rb_acl._make_reverse, p, PREFIX)
+        if not ok_:
+            continue
         if got != exp:
             ctx.fail("acl._make_reverse:negation", "the negated rule is <negation word> + rule, or the rule without its leading negation word",
                      dict(pattern=p, prefix=PREFIX), exp, got)
         if words[0] != PREFIX:
-            back = rb_acl._make_reverse(got, PREFIX)
-            if back != p:
+            ok_, back = ctx.call("acl._make_reverse", dict(pattern=got, prefix=PREFIX), rb_acl._make_reverse, got, PREFIX)
+            if ok_ and back != p:
                 ctx.fail("acl._make_reverse:double-negation", "negating a negated rule must give back the plain rule", dict(pattern=p, prefix=PREFIX), p, back)
     # deploy: path-wise matching on the flat grammar rulebook
     dpats = [(p,) + parse_pattern(p) for p in mine]
-    check_deploy_paths(ctx, dict(section="compilers-deploy", vendor=vendor), deploying,
-                       [dict(raw=p, icase=ic, toks=tk, ifcontext=[], children=[]) for (p, ic, tk, _n) in dpats],
-                       sorted({r for (p, ic, tk, _n) in dpats[:40] for r in _rows_for(tk, ic, PREFIX)[:12] if r == _norm(r)}))
+    if ok4:
+        check_deploy_paths(ctx, dict(section="compilers-deploy", vendor=vendor), deploying,
+                           [dict(raw=p, icase=ic, toks=tk, ifcontext=[], children=[]) for (p, ic, tk, _n) in dpats],
+                           sorted({r for (p, ic, tk, _n) in dpats[:40] for r in _rows_for(tk, ic, PREFIX)[:12] if r == _norm(r)}))
 
 
 def _check_negated(ctx, what, case, rx, icase, neg_toks, notes, rows, pattern):
@@ -878,7 +975,9 @@ def check_deploy_paths(ctx, case_base, deploying, ref_rules, rows, contexts=({},
             if exp is UNKNOWN:
                 continue
             exp_raw = exp["raw"] if exp is not None else "<default rule>"
-            got = rb_deploying.match_deploy_rule(deploying, path, context)
+            ok_, got = ctx.call("match_deploy_rule", dict(case_base, cmd_path=list(path), context=context), rb_deploying.match_deploy_rule, deploying, path, context)
+            if not ok_:
+                continue
             if id(got) in by_raw:
                 got_raw = by_raw[id(got)]
             elif got["attrs"]["regexp"].pattern == "^(.+)" and got["attrs"]["timeout"] == 30 and not got["children"]:
@@ -904,7 +1003,9 @@ def run_deploy_nested(ctx, part):
             "        no   %timeout=8\n"
             "no *\n"
             "    a   %timeout=3\n")
-    deploying = rb_deploying.compile_deploying_text(text, "cisco")
+    ok_, deploying = ctx.call("compile_deploying_text", dict(section="deploy-nested", text=text), rb_deploying.compile_deploying_text, text, "cisco")
+    if not ok_:
+        return
     tree = parse_rule_text(text, "deploy")
     rows = ["a x", "a x y", "ab", "ab x", "no x", "no x y", "a", "b", "no", "a ab", "zz"]
     check_deploy_paths(ctx, dict(section="deploy-nested", text=text), deploying, tree, rows)
@@ -912,7 +1013,9 @@ def run_deploy_nested(ctx, part):
     for path in sub:
         ctx.ev += 1
         exp = ref_deploy_select(tree, path, {})
-        got = rb_deploying.match_deploy_rule(deploying, path, {})
+        ok_, got = ctx.call("match_deploy_rule", dict(section="deploy-nested", text=text, cmd_path=list(path)), rb_deploying.match_deploy_rule, deploying, path, {})
+        if not ok_:
+            continue
         exp_t = exp["timeout"] if exp is not None else 30.0
         exp_p = " ".join(exp["raw"].split()[:2]) if exp is not None else "<default>"
         got_t = got["attrs"]["timeout"]
@@ -1010,7 +1113,7 @@ IMPLICIT_MODELS = ["Huawei CE6870", "Huawei NE40E", "Huawei S5700", "Arista DCS-
                    "Cisco Nexus 9316", "Cisco Nexus 7010", "Cisco Catalyst 2960", "Cisco Catalyst 6509", "Cisco ASR 9010", "Juniper MX960", "PC"]
 
 
-def shipped_units():
+def shipped_units(ctx=None):
     """-> list of (unit id, kind, vendor, file, model, text, compiled objects dict, parsed tree) for every vendor and text"""
     from annet.vendors import registry_connector
     from annet.rulebook import DefaultRulebookProvider
@@ -1029,6 +1132,11 @@ def shipped_units():
                 try:
                     text = prov._render_rul(fname, hw)
                 except FileNotFoundError:
+                    continue
+                except Exception as e:
+                    if ctx is not None:
+                        ctx.fail("exception:render:" + fname, "a shipped rule text does not render", dict(section="shipped", file=fname, model=hw.model),
+                                 "no exception", "%s: %s" % (type(e).__name__, str(e)[:300]))
                     continue
                 if (fname, cvendor, text) in seen:
                     continue
@@ -1064,18 +1172,28 @@ def _real_lookup(kind, compiled, path_rules):
 
 
 def run_shipped(ctx, tier, part, nparts, stats):
-    units = shipped_units()
+    units = shipped_units(ctx)
     idx = 0
     for u in units:
         kind, vendor, text, prefix = u["kind"], u["vendor"], u["text"], u["prefix"]
         tree = parse_rule_text(text, kind)
+        uc = dict(section="shipped", file=u["file"], model=u["model"])
         if kind == "rul":
-            compiled = {"patching": rb_patching.compile_patching_text(text, vendor),
-                        "acl": rb_acl.compile_acl_text(text, vendor, allow_ignore=True)}
+            oka, cp = ctx.call("compile_patching_text:" + u["file"], uc, rb_patching.compile_patching_text, text, vendor)
+            okb, ca = ctx.call("compile_acl_text:" + u["file"], uc, rb_acl.compile_acl_text, text, vendor, allow_ignore=True)
+            if not (oka and okb):
+                continue
+            compiled = {"patching": cp, "acl": ca}
         elif kind == "order":
-            compiled = {"ordering": rb_ordering.compile_ordering_text(text, vendor)}
+            oka, co = ctx.call("compile_ordering_text:" + u["file"], uc, rb_ordering.compile_ordering_text, text, vendor)
+            if not oka:
+                continue
+            compiled = {"ordering": co}
         else:
-            compiled = {"deploying": rb_deploying.compile_deploying_text(text, vendor)}
+            oka, cd = ctx.call("compile_deploying_text:" + u["file"], uc, rb_deploying.compile_deploying_text, text, vendor)
+            if not oka:
+                continue
+            compiled = {"deploying": cd}
         flat = list(_walk_with_rules(tree))
         dep_rows = set()
         for (path_rules, r) in flat:
@@ -1169,7 +1287,9 @@ def run_implicit(ctx, part, nparts, stats):
     idx = 0
     for model in IMPLICIT_MODELS:
         dev = types.SimpleNamespace(hw=HardwareView(model, ""), tags=[])
-        rules = implicit.compile_rules(dev)
+        ok_, rules = ctx.call("implicit.compile_rules", dict(section="implicit", model=model), implicit.compile_rules, dev)
+        if not ok_:
+            continue
 
         def walk(level, path):
             for row, rule in level.items():
@@ -1196,23 +1316,30 @@ def run_implicit(ctx, part, nparts, stats):
 def run(tier="quick", seed=0, part=0, nparts=1):
     ctx = Ctx()
     stats = dict(skipped={}, modelled=set(), keyskip=set())
-    run_grammar(ctx, tier, part, nparts)
-    run_compilers(ctx, tier, part, nparts)
-    run_deploy_nested(ctx, part)
-    try:
-        run_shipped(ctx, tier, part, nparts, stats)
-        run_implicit(ctx, part, nparts, stats)
-    except Exception as e:  # a shipped text that does not render/compile at all
-        import traceback
-        ctx.fail("shipped:exception", "shipped rule texts could not be rendered/compiled/parsed", dict(section="shipped"), "no exception",
-                 "%s: %s | %s" % (type(e).__name__, e, traceback.format_exc()[-600:]))
+    import traceback
+    for (name, fn, args) in (("grammar", run_grammar, (ctx, tier, part, nparts)),
+                             ("negation-words", run_negation_words, (ctx, part, nparts)),
+                             ("compilers", run_compilers, (ctx, tier, part, nparts)),
+                             ("deploy-nested", run_deploy_nested, (ctx, part)),
+                             ("shipped", run_shipped, (ctx, tier, part, nparts, stats)),
+                             ("implicit", run_implicit, (ctx, part, nparts, stats))):
+        try:
+            fn(*args)
+        except Exception as e:  # backstop: nothing may crash run()
+            ctx.fail("exception:section-" + name, "section %s stopped with an exception" % name, dict(section=name), "no exception",
+                     "%s: %s | %s" % (type(e).__name__, e, traceback.format_exc()[-600:]))
     nsk = sum(len(v) for v in stats["skipped"].values())
     why = "; ".join("%d x %s" % (len(v), k) for k, v in sorted(stats["skipped"].items(), key=lambda kv: -len(kv[1])))
     mt = 3 if tier == "quick" else 4
     rule = ("(1) all patterns of <= %d tokens over literals {a,ab,no}, `*`, `*/[ab]+/`, `*/(a|n)o?/`, last token also `~`, `ab...`, "
             "`~/[ab]+/`, each with and without (?i), x all rows of <= 5 words over %s: "
             "(compile_row_regexp(p).match(row), groups) vs the reference matcher, patching._make_reverse(p,'no').format(*key) vs "
-            "<negation word + rule words with key>; (2) the patterns of <= %d tokens compiled by the real compile_patching_text "
+            "<negation word + rule words with key>; also the patterns of <= 3 tokens that combine the raw alternation word `(a|ab)` with "
+            "literals, `*` and a trailing `~` (with any `*` in the rule the key is exactly the placeholder words; without `*` the key is "
+            "not asserted); (1b) for every vendor negation word (no, undo, delete, remove, -) the patterns of <= 3 tokens over {the word, "
+            "two words that merely begin with it (notify, nothing, undoable, ...), a, `*`} + trailing `~`/`notify~`: patching._make_reverse "
+            "template, acl._make_reverse text, ordering direct/reverse regexps; every call into annet is guarded (exception -> failure "
+            "`exception:<where>`); (2) the patterns of <= %d tokens compiled by the real compile_patching_text "
             "(every 2nd with %%ignore_case) / compile_ordering_text / compile_acl_text / compile_deploying_text (vendor cisco): every "
             "regexp/direct_regexp/reverse_regexp, ignore_case attr, reverse template, match_deploy_rule on 1- and 2-element paths, on "
             "rows synthesised from the pattern and from its negation + near-miss mutations (word dropped/glued/inserted/continued/"
